@@ -32,13 +32,13 @@ func (x *recRun) nd(vi int) int { return x.rc.nodeOf[vi] }
 // processed in one loop iteration, however long that takes on a loaded machine (cluster.Deliver gives up after 300 ms and
 // reports "dropped", which is fine for exploring schedules but not for an observation a verdict rests on).  All payloads
 // handed over here come from the real validators, so the service never refuses them before the loop.
-func (x *recRun) hdeliver(id, to int) {
+func (x *recRun) hdeliver(id, to int) string {
 	if x.silent[to] || x.fatal != nil {
-		return
+		return "skipped"
 	}
 	m := x.c.Msg(id)
 	if m.From == to {
-		return
+		return "skipped"
 	}
 	n := x.c.Nodes[to]
 	e := npayload.NewExtensible()
@@ -55,9 +55,17 @@ func (x *recRun) hdeliver(id, to int) {
 		before := x.c.itersOf(to)
 		if err := n.Svc.OnPayload(e); err != nil {
 			result = "service-error"
-		} else if err := x.c.waitIter(to, before); err != nil {
-			x.fatal = err
-			return
+		} else {
+			// 5 s of wall-clock only separate "being processed" from "the service took it and never looked at it"; a payload
+			// reported unprocessed is left out of every premise a verdict rests on (see cacheScen / DBFTRecTrace)
+			for dl := time.Now().Add(5 * time.Second); x.c.itersOf(to) <= before; {
+				if time.Now().After(dl) {
+					result = "unprocessed"
+					x.res.Inc("unprocessed_deliveries", 1)
+					break
+				}
+				time.Sleep(100 * time.Microsecond)
+			}
 		}
 		x.c.Settle()
 	}
@@ -68,6 +76,7 @@ func (x *recRun) hdeliver(id, to int) {
 	x.emit(map[string]any{"event": "deliver", "id": id, "to": to, "type": m.Type, "from": m.From, "h": m.Height, "view": int(m.View), "result": result})
 	x.observe()
 	x.res.Count([]any{x.id, "d", id, to})
+	return result
 }
 
 func (x *recRun) nextHeight() uint32 {
@@ -349,15 +358,16 @@ func (x *recRun) relayOne(node int, h uint32) bool {
 }
 
 // probeDeliver hands payload id to node and records what the node did in reaction.
-func (x *recRun) probeDeliver(id, node int, phase string) {
+func (x *recRun) probeDeliver(id, node int, phase string) string {
 	m := x.c.Msg(id)
 	sb, lb := x.countSent(node, "", 0, 0), x.c.Nodes[node].BC.BlockHeight()
 	qb := x.rc.nQueued(node)
-	x.hdeliver(id, node)
-	x.emit(map[string]any{"event": "cache_probe", "phase": phase, "node": node, "id": id, "type": m.Type, "h": m.Height,
+	result := x.hdeliver(id, node)
+	x.emit(map[string]any{"event": "cache_probe", "phase": phase, "result": result, "node": node, "id": id, "type": m.Type, "h": m.Height,
 		"lh_before": lb, "lh_after": x.c.Nodes[node].BC.BlockHeight(), "sends_before": sb, "sends_after": x.countSent(node, "", 0, 0),
 		"queued_before": qb, "queued_after": x.rc.nQueued(node)})
 	x.res.Count([]any{"cacheprobe", x.id, phase, id, node})
+	return result
 }
 
 // cacheScen: order = "early" (payloads of H+1, then block H) or "ontime" (block H, then the payloads); subset selects
@@ -409,8 +419,6 @@ func cacheScen(t *testing.T, res *vh.Result, tr *vh.Trace, id, n int, order, sub
 	} else {
 		// view in which H+1 was decided (the group may have needed a view change)
 		var ids []int
-		gotReq := false
-		preps, cmts := []int{}, []int{}
 		view1 := -1
 		for idm := start; idm < x.c.NMsgs(); idm++ {
 			inf := x.rc.inf(idm)
@@ -426,28 +434,45 @@ func cacheScen(t *testing.T, res *vh.Result, tr *vh.Trace, id, n int, order, sub
 			switch inf.Type {
 			case "PrepareRequest":
 				if subset == "all" || subset == "prep" {
-					ids, gotReq = append(ids, idm), true
+					ids = append(ids, idm)
 				}
 			case "PrepareResponse":
 				if subset != "commits" {
-					ids, preps = append(ids, idm), append(preps, inf.VI)
+					ids = append(ids, idm)
 				}
 			case "Commit":
 				if subset == "all" || subset == "commits" || subset == "noreq" {
-					ids, cmts = append(ids, idm), append(cmts, inf.VI)
+					ids = append(ids, idm)
 				}
+			}
+		}
+		// what X was really given: only hand-overs its service completed an iteration for
+		gotReq, unprocessed := false, 0
+		preps, cmts := []int{}, []int{}
+		given := func(idm int, result string) {
+			if result != "delivered" {
+				unprocessed++
+				return
+			}
+			switch inf := x.rc.inf(idm); inf.Type {
+			case "PrepareRequest":
+				gotReq = true
+			case "PrepareResponse":
+				preps = append(preps, inf.VI)
+			case "Commit":
+				cmts = append(cmts, inf.VI)
 			}
 		}
 		x.emit(map[string]any{"event": "cache_hold", "node": Xn, "vi": X, "h": H, "order": order, "subset": subset, "view": view1})
 		if order == "early" {
 			for _, idm := range ids {
-				x.probeDeliver(idm, Xn, "future")
+				given(idm, x.probeDeliver(idm, Xn, "future"))
 			}
 			x.relayOne(Xn, H)
 		} else {
 			x.relayOne(Xn, H)
 			for _, idm := range ids {
-				x.hdeliver(idm, Xn)
+				given(idm, x.hdeliver(idm, Xn))
 			}
 		}
 		x.c.ServeTxRequests()
@@ -457,7 +482,7 @@ func cacheScen(t *testing.T, res *vh.Result, tr *vh.Trace, id, n int, order, sub
 		x.emit(map[string]any{"event": "cache_replayed", "node": Xn, "vi": X, "h": H + 1, "order": order, "view": view1,
 			"got_req": gotReq, "got_preps": preps, "got_commits": cmts,
 			"sent_resp": x.find2("PrepareResponse", X, view1, H+1) >= 0, "sent_commit": x.find2("Commit", X, view1, H+1) >= 0,
-			"lh": x.c.Nodes[Xn].BC.BlockHeight(), "assembled": x.rc.assembled(Xn, H+1), "with_tx": withTx,
+			"lh": x.c.Nodes[Xn].BC.BlockHeight(), "assembled": x.rc.assembled(Xn, H+1), "with_tx": withTx, "unprocessed": unprocessed,
 			"reset": x.c.Nodes[Xn].Timer.Height() >= H+1})
 		res.Inc("cache_scenarios", 1)
 		res.Count([]any{"cache", n, order, subset, X, withTx})
